@@ -1,6 +1,9 @@
 package dpt
 
-import "fmt"
+import (
+	"fmt"
+	"math"
+)
 
 // DPT_5001 represents DPT 5.001 / Scaling.
 type DPT_5001 float32
@@ -11,7 +14,7 @@ func (d DPT_5001) Pack() []byte {
 	} else if d >= 100 {
 		return packU8(255)
 	} else {
-		return packU8(uint8(d * 2.55))
+		return packU8(uint8(math.Round(float64(d) * 2.55)))
 	}
 }
 
@@ -43,7 +46,7 @@ func (d DPT_5003) Pack() []byte {
 	} else if d >= 360 {
 		return packU8(255)
 	} else {
-		return packU8(uint8(d * 255 / 360))
+		return packU8(uint8(math.Round(float64(d) * 255 / 360)))
 	}
 }
 
